@@ -133,6 +133,14 @@ def make_target(execs):
         def boom(self, tok):
             execs[tok] = execs.get(tok, 0) + 1
             raise ValueError(tok)
+
+        def stream(self):
+            # an endless remote iterator; every step it takes is counted, and the item is the number of steps taken so far
+            def gen():
+                while True:
+                    execs["steps"] = execs.get("steps", 0) + 1
+                    yield execs["steps"]
+            return gen()
     for i in range(1, NATTR + 1):
         def getter(self, i=i):
             execs[i] = execs.get(i, 0) + 1
@@ -170,6 +178,15 @@ def do_call(P, errors, p, kind, tok, state=None, variant=0):
             v = res[0] if len(res) == 1 else -1
         elif kind == "getattr":
             v = getattr(p, "attr%d" % tok)
+        elif kind == "fetch":
+            try:
+                v = next(state["it"])
+            except StopIteration:
+                return ("stop", 0)
+            except errors.CommunicationError:
+                return ("comm", 0)
+            except errors.PyroError:
+                return ("exc", 0)           # the daemon's own answer: the stream is gone
         else:
             raise util.MachineryError("kind " + kind)
         return ("ret", v if isinstance(v, int) and not isinstance(v, bool) else -1)
@@ -192,6 +209,7 @@ def run_scripts(scripts, servertype):
     config.THREADPOOL_SIZE = 4
     config.THREADPOOL_SIZE_MIN = 1
     config.COMMTIMEOUT = 0.0
+    config.ITER_STREAM_LIFETIME = 0.0
     traces = []
     net = memnet.NET
 
@@ -226,8 +244,16 @@ def run_scripts(scripts, servertype):
                 p._pyroTimeout = 5.0
                 p._pyroSeq = seq0
                 state = {}
+                config.ITER_STREAM_LINGER = (0.0, 30.0)[(sc_i // 2) % 2]
+                if any(st["kind"] == "fetch" for st in script):
+                    state["it"] = p.stream()          # opened before any fault is armed
                 for i, step in enumerate(script):
                     tok = i + 1
+                    pre = conn = 0
+                    if step["kind"] == "fetch":
+                        sc.quiesce()
+                        pre = execs.get("steps", 0)
+                        conn = 1 if p._pyroConnection is not None else 0
                     layer.oneway = step["kind"] == "oneway"
                     layer.cut_at = (7, 25, 40, 43)[(sc_i + i) % 4]
                     layer.arm(step["fault"], step.get("sticky", False))
@@ -236,15 +262,19 @@ def run_scripts(scripts, servertype):
                     except S.Hang:
                         outcome, val = "hang", 0
                     layer.disarm()
-                    if step["kind"] == "oneway" and outcome == "ret":
+                    if (step["kind"] == "oneway" and outcome == "ret") or step["kind"] == "fetch":
                         try:
                             sc.quiesce()         # the request has been delivered and handled before anything else happens
                         except S.Hang:
                             outcome = "hang"
+                    post = 0
+                    if step["kind"] == "fetch":
+                        post = execs.get("steps", 0)
+                        execs[tok] = post - pre      # steps the server-side iterator took on behalf of this fetch
                     if outcome.startswith("other"):
-                        tr.append({"e": "call", "tok": tok, "kind": step["kind"], "fault": step["fault"], "outcome": "other", "val": 0, "exc": outcome})
+                        tr.append({"e": "call", "tok": tok, "kind": step["kind"], "fault": step["fault"], "outcome": "other", "val": 0, "exc": outcome, "pre": pre, "post": post, "conn": conn})
                     else:
-                        tr.append({"e": "call", "tok": tok, "kind": step["kind"], "fault": step["fault"], "outcome": outcome, "val": val})
+                        tr.append({"e": "call", "tok": tok, "kind": step["kind"], "fault": step["fault"], "outcome": outcome, "val": val, "pre": pre, "post": post, "conn": conn})
                     if outcome == "hang":
                         break
             finally:
@@ -275,7 +305,8 @@ def run(ctx):
     ctx.assumptions = ["faults are applied to the first attempt of a call; a retry attempt is fault free",
                        "a replayed stale reply is one of the last few replies (a replay of a reply exactly 65536 requests old is "
                        "indistinguishable by protocol design and is not generated)",
-                       "stream fetches are covered by C10 (reconnect/linger) rather than here"]
+                       "a stream fetch counts as a call (kind fetch): an item it returns must be the one its own request made the "
+                       "server-side iterator produce; which items a stream delivers overall is C10's business"]
     for (m, n, r, ow) in ((9, 4, 1, "2"), (5, 4, 0, "3"), (13, 4, 2, "")) if not ctx.quick else ((9, 4, 1, "2"), (5, 4, 0, "3")):
         tlc.mc(ctx, "ClientCall", cfg_text=MC_CFG % (m, n, r, ow))
     rng = random.Random(ctx.seed + 3)
@@ -311,12 +342,14 @@ def run(ctx):
     for tr, meta, v in zip(traces, metas, verdicts):
         for e in tr[1:-1]:
             outcomes.add(e["outcome"])
+            if e["kind"] == "fetch":
+                outcomes.add("fetch-" + e["outcome"])
         if tr[-1].get("crashed"):
             v = v or "C03.ServerLoopDied"
         if v:
             fl = sorted({s["kind"] + "/" + s["fault"] + ("*" if s.get("sticky") else "") for s in meta["script"]})
             ctx.violation("%s [retries=%d]" % (v, meta["retries"]), {"meta": meta, "trace": tr, "steps": fl})
-    if not ctx.violations and not {"ret", "exc", "comm"} <= outcomes:
+    if not ctx.violations and not {"ret", "exc", "comm", "fetch-ret", "fetch-comm", "fetch-exc"} <= outcomes:
         raise util.MachineryError("vacuity: outcomes seen %s" % sorted(outcomes))
 
 
